@@ -1,11 +1,17 @@
 #!/bin/sh
 # Developer tool: run every seeded change under /verif/seeded against its property's quick
-# check (patched scratch worktree, SNT_SRC) and print one line per seed.
+# check (patched scratch worktree, SNT_SRC) and print one line per seed.  A patch that no
+# longer applies to /repo HEAD (a later repair touched the same lines) is tried on the
+# commit it was written for (meta.json: base_commit).
 cd /verif
 for d in seeded/*/; do
   id=$(basename "$d"); p=${id%-*}
-  base=$(python3 -c "import json;m=json.load(open('$d/meta.json'));print('HEAD' if m.get('applies_to_head',True) else m.get('base_commit','HEAD'))")
+  base=HEAD
   out=$(BASE=$base tools/try_seed.sh "$id" "/verif/$d/patch.diff" "/verif/$d/demo.py" "$p" 2>&1)
+  if echo "$out" | grep -q "PATCH DOES NOT APPLY"; then
+    base=$(python3 -c "import json;print(json.load(open('$d/meta.json')).get('base_commit','HEAD').split()[0])")
+    out=$(BASE=$base tools/try_seed.sh "$id" "/verif/$d/patch.diff" "/verif/$d/demo.py" "$p" 2>&1)
+  fi
   s=$(echo "$out" | grep "^seed=" | sed 's/ suite=.*//')
   c=$(echo "$out" | grep "  check" | sed 's/^ *//')
   echo "$s | base=$base | $c"
